@@ -351,6 +351,8 @@ def main():
             unknown = []
             for case, fail in failures:
                 kf = mod.match_known(case, fail, known) if hasattr(mod, 'match_known') else None
+                if case.get('_corpus'):
+                    kf = None       # corpus cases are witnesses of repaired defects: a failure there is never a known finding
                 if kf is not None:
                     stats.add('known:%s:%s' % (kf['id'], fail.get('clause')))
                     if kf['id'] not in known_hit:
@@ -363,7 +365,7 @@ def main():
                 if per_clause[fail.get('clause')] > 3:
                     continue
                 kf = None
-                if not fail.get('no_input'):
+                if not fail.get('no_input') and not case.get('_corpus'):
                     case, fail = shrink(mod, case, fail, pool, known=known)
                     if hasattr(mod, 'match_known'):
                         kf = mod.match_known(case, fail, known)
